@@ -305,6 +305,11 @@ pub fn run(a: &Args) {
             continue;
         }
         let mut rng = Rng::for_case(a.seed, 17, case as u64 + 1);
+        if case % 5 == 2 {
+            let g = grammar::layered_grammar(&mut rng);
+            emit(&mut out, &g.render(), None, &mut rng, "layered");
+            continue;
+        }
         let g = grammar::random_grammar(&mut rng, &cfg);
         emit(&mut out, &g.render(), None, &mut rng, "random");
     }
